@@ -275,6 +275,8 @@ def programs(tier):
     reg("x2+y2(unaligned,policy=refine)", lambda w, E: _add_unaligned(w, E, (2,), (2,), "refine"), 4)
     reg("x2x2+y2(broadcast)", lambda w, E: _add_broadcast(w, E), 3)
     reg("x2x2+x2x2.T", lambda w, E: _add_transpose(w, E), 4)
+    reg("x2x2+(-y2)(broadcast,fused chain)", lambda w, E: _add_broadcast_chain(w, E), 3)
+    reg("(x2x3+y2x3).T", lambda w, E: p_transpose(w, _add_aligned(w, E, (2, 3)), (1, 0)), 3)
     reg("-x2", lambda w, E: p_elemwise(w, operator.neg, source(w, E, "x", (2,))))
     reg("x2*2.5", lambda w, E: p_elemwise(w, operator.mul, source(w, E, "x", (2,)), 2.5))
     reg("concatenate([x2,y3],0)", lambda w, E: p_concat(w, [source(w, E, "x", (2,)), source(w, E, "y", (3,))], 0))
@@ -321,6 +323,14 @@ def _add_broadcast(w, E):
     x = source(w, E, "x", (2, 2))
     y = source(w, E, "y", (2,), shape=(x.node.shape[1],))
     return p_elemwise(w, operator.add, x, y)
+
+
+def _add_broadcast_chain(w, E):
+    x = source(w, E, "x", (2, 2))
+    y = source(w, E, "y", (2,), shape=(x.node.shape[1],))
+    for i in range(2):
+        E.assume(y.node.chunks[0][i] == x.node.chunks[1][i])
+    return p_elemwise(w, operator.add, x, p_elemwise(w, operator.neg, y))
 
 
 def _add_transpose(w, E):
